@@ -153,6 +153,17 @@ def make_pool(rng, size=None, style=None):
     return pool
 
 
+# constants the library gives a special meaning to when they appear as *references*;
+# as stored values (or keys) they are ordinary bytes
+MAGIC = [
+    bytes.fromhex("56e81f171bcc55a6ff8345e692c0f86e5b48e01b996cadc001622fb5e363b421"),  # keccak(rlp(b""))
+    bytes.fromhex("c5d2460186f7233c927e7db2dcc703c0e500b653ca82273b7bfad8045d85a470"),  # keccak(b"")
+    b"\x80",
+    b"\xc0",
+    b"\x00" * 32,
+]
+
+
 def make_values(rng, n=None):
     """A value menu biased to the RLP embedding threshold (node encodings of 31, 32,
     33 bytes for the short paths in play), plus tiny and large values.  Few distinct
@@ -174,6 +185,8 @@ def make_values(rng, n=None):
         else:
             v = rand_bytes(rng, ln)
         menu.append(v)
+    if rng.random() < 0.15:
+        menu[rng.randrange(len(menu))] = rng.choice(MAGIC)
     return menu
 
 
